@@ -113,10 +113,26 @@ PENDING = {}
 E2_EXTRA = (" Small families are additionally run (a) after each of 12 primer calls made on the same thread (two-call histories across graphs: "
             "thread-local and pooled state), (b) built through 7 construction routes (edges first under Create then nodes re-added, reverse().reverse() / "
             "get_subgraph(all), new_from_nodes_and_edges, shared Arc objects, KeepLast/KeepFirst+Create+Drop specs), (c) as query -> mutate in place -> query "
-            "histories with 6 mutations on the same Graph object, and where the oracle is scale-free (d) with exact power-of-two weights around 2^-60 and 2^60; path-based checks also use node-keyed weight schemes (weight = function of the source / target node) on all 4-node digraphs.")
+            "histories with 9 mutations (one of them a rejected call) on the same Graph object, and where the oracle is scale-free (d) with exact power-of-two weights around 2^-60 and 2^60; path-based checks also use node-keyed weight schemes (weight = function of the source / target node) on all 4-node digraphs.")
 E1_EXTRA = " One further stage repeats the exploration with equal edge specifications being one shared Arc<Edge> object (alphabet suffix @alias); batch calls are applied from every shallow state and the object each batch call leaves behind (also after a failing element) gets the state oracle."
 for pid in ["C04", "C05", "C06", "C08", "C10", "C11", "C12", "C13", "C18", "C20"]:
     CHECKS[pid]["text"] += E2_EXTRA
+ROUND9 = {
+    "C01": " The quick tier also runs the @alias stage (one Arc<Edge> per distinct edge value, re-added by clone).",
+    "C02": " Wide-graph stage: the query names a, b, c (loops, a mutual pair, parallel edges) inside graphs with 300 further nodes, 8 graphs, same oracle.",
+    "C05": " Long-path stage: paths with 2100 nodes, both kinds, closed-form values (beyond every block size of the parallel branch).",
+    "C06": " Long-path stage: paths with 6000 nodes, both kinds, closed-form values at relative tolerance 1e-9 (distance sums beyond 2^24).",
+    "C08": " Family wf71 = weights {0.7, 0.1} on 3-node digraphs with at most 3 edges: cutoffs equal to inexact reported distances.",
+    "C09": " E1 stage winf2 = weights {1, +inf} at depth 3: aggregates must be +inf, never NaN.",
+    "C10": " History families include a rejected add_edge (unknown endpoint) as a mutation; a component member that is not a node is reported under clause partition.",
+    "C11": " Families wspan = weights {1e-20, 1} (coefficients below f64::EPSILON).",
+    "C15": " Tall-group stage: every parallel-group size 1..24 on a pair and on a self-loop, both kinds, integer weights.",
+    "C16": " Zero-skip traces (every dictated draw gives skip 0, every pair is due) at n = 100, 140, 203, both kinds.",
+    "C20": " The call table includes cutoffs +inf, f64::MAX and 1.9e19 in both modes.",
+}
+for pid, t in ROUND9.items():
+    if pid in CHECKS:
+        CHECKS[pid]["text"] += t
 for pid in ["C01", "C02", "C03", "C09", "C15"]:
     CHECKS[pid]["text"] += E1_EXTRA
 CHECKS["C13"]["text"] += " Medium inputs (6-12 nodes) include nearly equal weights 1, 1+eps, 1+2eps; large inputs have 130-2200 edges."
